@@ -26,6 +26,8 @@ func main() {
 		checkMain(os.Args[2:])
 	case "replay":
 		replayMain(os.Args[2:])
+	case "corpus-gen":
+		corpusGenMain(os.Args[2])
 	case "conc-worker":
 		concWorkerMain(os.Args[2:])
 	default:
